@@ -130,7 +130,7 @@ out += ["```", "",
 "### 8.4 Runs on the unchanged tree at the end of the work", "",
 "Against /repo at 0197c53 (54 `fix:` commits after the pinned commit; the 279 tests pass with the hooks off): the quick tier of all twenty checks at seeds 1-27 (`tools/sweep.sh`), the thorough tier at seed 1 (twice: before and after the last three repairs), seeds 2, 3 and 4 (`tools/thorough_all.sh`, 50-70 minutes each) - the six KNOWN-FINDING lines of K-SELSCOPE from C14 in every run. These runs raised two alarms on the unchanged tree, both false and both from rules added in the last hours (section 7.1): C09 in the thorough tier (corrected in the model) and C01 at seed 8 (the rule was dropped); after the corrections the affected runs were repeated and are silent. The committed evidence files are from the quick tier at seed 1.",
 "",
-"Last session (seventh and eighth round of seeded changes, section 8.1): before anything was added, the quick tier of all twenty checks at seeds 28-36 (silent). After the additions: every changed check on the unchanged tree at seeds 1-9 (seventh round's five checks) and 1-6 (the sixteen checks changed after the eighth round), the quick tier of all twenty checks at seed 1 (the committed evidence) and at seeds 7-14 in the background (`vp run -- tools/sweep.sh`), the thorough tier of the twelve structurally changed checks at seed 1, and the six benign variants against the sixteen changed checks (all SILENT). The three checks changed after the ninth (partial) round - C09, C14, C20 - were then run on the unchanged tree at seeds 1-5. No alarm on the unchanged tree; what was corrected before committing is in section 7.1.",
+"Last session (seventh and eighth round of seeded changes, section 8.1): before anything was added, the quick tier of all twenty checks at seeds 28-36 (silent). After the additions: every changed check on the unchanged tree at seeds 1-9 (seventh round's five checks) and 1-6 (the sixteen checks changed after the eighth round), the quick tier of all twenty checks at seed 1 (the committed evidence) and at seeds 7-14 in the background (`vp run -- tools/sweep.sh`), the thorough tier of the twelve structurally changed checks at seed 1, and the six benign variants against the sixteen changed checks (all SILENT). The three checks changed after the ninth (partial) round - C09, C14, C20 - were then run on the unchanged tree at seeds 1-5, and the quick tier of all twenty checks once more at seeds 15 and 16 with everything in place (silent). No alarm on the unchanged tree; what was corrected before committing is in section 7.1.",
 ""]
 d = open(os.path.join(R, "DESIGN.md")).read()
 a, b = "<!-- SECTION8 BEGIN -->", "<!-- SECTION8 END -->"
